@@ -99,7 +99,11 @@ def run_property(prop, tier, seed, only=None):
         params = h.quick if tier == 'quick' else h.thorough
         if params is None:
             continue
-        timeout = h.timeout[0] if tier == 'quick' else h.timeout[1]
+        # the thorough budgets written in the harness files are the budgets of a 20 h campaign; the registered
+        # thorough commands use a quarter of them (about 5 h for the 20 properties on 16 cores at worst) unless
+        # VERIF_THOROUGH_FACTOR says otherwise
+        timeout = h.timeout[0] if tier == 'quick' else h.timeout[1] * float(os.environ.get('VERIF_THOROUGH_FACTOR',
+                                                                                           '0.25'))
         if os.environ.get('VERIF_TIME_SCALE'):
             timeout = max(10, timeout * float(os.environ['VERIF_TIME_SCALE']))      # diagnostic runs only
         max_paths = h.max_paths[0] if tier == 'quick' else h.max_paths[1]
@@ -163,7 +167,8 @@ def run_property(prop, tier, seed, only=None):
                             'paths': res.paths, 'infeasible_paths': res.infeasible, 'decisions': res.decisions,
                             'solver_checks': res.checks, 'sat': res.sat, 'unsat': res.unsat,
                             'unknown': res.unknown, 'solver_s': round(res.solver_s, 2),
-                            'wall_s': round(res.wall_s, 2), 'exhaustive': res.exhaustive,
+                            'wall_s': round(res.wall_s, 2), 'time_budget_s': round(timeout, 1),
+                            'exhaustive': res.exhaustive,
                             'cross_validated': res.validated, 'reach': res.reached,
                             'failure_signatures': sorted(res.failures),
                             'outcome_classes': len(res.obs_classes) or None,
